@@ -789,6 +789,17 @@ class Opaque:
         return isinstance(o, Opaque) and self.name == o.name
 
 
+class Rec:
+    """struct with named fields (e.g. `self` of an engine: fields `h`, `t`)"""
+    __slots__ = ("fields",)
+
+    def __init__(self, fields):
+        self.fields = dict(fields)
+
+    def __eq__(self, o):
+        return isinstance(o, Rec) and self.fields == o.fields
+
+
 UNIT = Tup(None, [])
 
 
@@ -802,6 +813,8 @@ def vcopy(v):
         return Arr([vcopy(x) for x in v.items], v.ety)
     if isinstance(v, Tup):
         return Tup(v.name, [vcopy(x) for x in v.items])
+    if isinstance(v, Rec):
+        return Rec({k: vcopy(x) for k, x in v.fields.items()})
     return v
 
 
@@ -815,7 +828,8 @@ class WKernel:
     lean_name, params, ret_type, doc
     args                rust parameter name -> value (use the helpers words()/word()/opaque())
     prims               rust fn name -> python handler(ex, arg_asts) -> value   (calls that are NOT inlined)
-    conds               canonical text of a run-time condition -> Lean Bool term, e.g. {"last == LastBlock::Yes": "last"}
+    conds               run-time test `<opaque parameter> <op> <Enum::Variant>` -> Lean Bool term, e.g. {"last == LastBlock::Yes": "last"}
+                        (matched on the VALUES of the operands: the opaque argument named `last`, the enum constant)
     render              overrides of the Lean rendering of std word methods, e.g. {"rotate_right": "rotate_right {x} {n}"}
     result              python function (ex) -> Lean term of the result (ex.var(name), ex.outputs)
     cfg                 truth of cfg predicates, e.g. {'target_feature = "avx"': False}
@@ -1093,6 +1107,11 @@ class Ex:
             if isinstance(v, Arr):
                 return v
             raise TranslateError("indexed element is not an array")
+        if k == "field":
+            b = self.ev(e[1])
+            if isinstance(b, Rec) and isinstance(b.fields.get(e[2]), Arr):
+                return b.fields[e[2]]
+            raise TranslateError(f"field .{e[2]} is not an array of a struct value")
         raise TranslateError(f"unsupported array place {k}")
 
     def slice_place(self, e):
@@ -1256,6 +1275,8 @@ class Ex:
                 if i >= len(b.items):
                     raise TranslateError("tuple field out of range")
                 return b.items[i]
+            if isinstance(b, Rec) and e[2] in b.fields:
+                return b.fields[e[2]]
             raise TranslateError(f"unsupported field access .{e[2]}")
         if k == "index":
             if e[2][0] == "range":
@@ -1337,8 +1358,6 @@ class Ex:
     def ev_bin(self, e):
         op = e[1]
         ctext = self.text(e)
-        if ctext in self.k.conds:
-            return RtBool(self.k.conds[ctext])
         if op in ("&&", "||"):
             a = self.ev(e[2])
             if isinstance(a, bool):
@@ -1350,6 +1369,8 @@ class Ex:
         if isinstance(a, EnumV) or isinstance(b, EnumV):
             if op in ("==", "!=") and isinstance(a, EnumV) and isinstance(b, EnumV):
                 return (a == b) == (op == "==")
+            if isinstance(a, Opaque) and isinstance(b, EnumV) and f"{a.name} {op} {b.path}" in self.k.conds:
+                return RtBool(self.k.conds[f"{a.name} {op} {b.path}"])     # run-time test of an opaque parameter (by VALUE, not by text)
             raise TranslateError(f"comparison `{ctext}` of a run-time enum is not declared in the kernel spec (conds)")
         if isinstance(a, Int) and isinstance(b, Int):
             if op in ("==", "!=", "<", ">", "<=", ">="):
@@ -1422,21 +1443,38 @@ class Ex:
             self.frames = fb
             vb = self.exec_block(e[3]) if e[3] is not None else UNIT
             self.frames = base_frames
+            self.merged = set()
             for fr, xa, xb in zip(base_frames, fa, fb):
                 for sc, sa, sb in zip(fr.scopes, xa.scopes, xb.scopes):
                     for name in sc:
-                        sc[name] = self.merge(c, sa[name], sb[name], name)
-            return self.merge(c, va, vb, "r")
+                        sc[name] = self.merge(c, sc[name], sa[name], sb[name], name)
+            return self.merge(c, None, va, vb, "r")
         raise TranslateError("unsupported `if` condition")
 
-    def merge(self, c, a, b, base):
+    def merge(self, c, orig, a, b, base):
+        """value after a run-time `if`: `a` / `b` are the values in the two branch copies of the environment, `orig` the
+        object of the live environment (arrays and structs are updated IN PLACE so that `&mut` aliases stay aliases)"""
         if isinstance(a, Arr) and isinstance(b, Arr) and len(a.items) == len(b.items):
-            return Arr([self.merge(c, x, y, self.elem_name(base, i)) for i, (x, y) in enumerate(zip(a.items, b.items))], a.ety)
+            tgt = orig if isinstance(orig, Arr) and len(orig.items) == len(a.items) else Arr(list(a.items), a.ety)
+            if id(tgt) in self.merged:
+                return tgt
+            self.merged.add(id(tgt))
+            for i, (x, y) in enumerate(zip(a.items, b.items)):
+                tgt.items[i] = self.merge(c, tgt.items[i] if tgt is orig else None, x, y, self.elem_name(base, i))
+            return tgt
+        if isinstance(a, Rec) and isinstance(b, Rec) and set(a.fields) == set(b.fields):
+            tgt = orig if isinstance(orig, Rec) else Rec(a.fields)
+            if id(tgt) in self.merged:
+                return tgt
+            self.merged.add(id(tgt))
+            for k_ in a.fields:
+                tgt.fields[k_] = self.merge(c, tgt.fields.get(k_) if tgt is orig else None, a.fields[k_], b.fields[k_], k_)
+            return tgt
         if isinstance(a, Tup) and isinstance(b, Tup) and len(a.items) == len(b.items):
-            return Tup(a.name, [self.merge(c, x, y, f"{base}_{i}") for i, (x, y) in enumerate(zip(a.items, b.items))])
+            return Tup(a.name, [self.merge(c, None, x, y, f"{base}_{i}") for i, (x, y) in enumerate(zip(a.items, b.items))])
         if a is None and b is None:
             return None
-        if a == b and type(a) is type(b):
+        if type(a) is type(b) and a == b:
             return a
         if isinstance(a, (Word, Int)) and isinstance(b, (Word, Int)):
             ty = a.ty if isinstance(a, Word) else (b.ty if isinstance(b, Word) else (a.ty or b.ty))
@@ -1524,7 +1562,12 @@ class Ex:
                     p.eat()
                 p.eat(); params.append((("var", "self"), "Self"))
             elif p.at("&"):
-                raise TranslateError("&self methods are not supported as inlined helpers")
+                p.eat()
+                if p.atid("mut"):
+                    p.eat()
+                if not p.atid("self"):
+                    raise TranslateError("unsupported parameter pattern `&…`")
+                p.eat(); params.append((("var", "self"), "Self"))
             else:
                 pat = p.pattern(); p.eat(":"); ty = p.ty()
                 params.append((pat, ty))
